@@ -413,7 +413,25 @@ class PathEnum:
                 ct = ("call", path, args, ebb)
                 if self.lower and path in LOWERABLE and t.get("target") is not None and self._lower(path, args, t, env, conds, trace, events, onpath, ebb):
                     return
+                if self.lower and path in ("std::ops::Fn::call", "std::ops::FnMut::call_mut", "std::ops::FnOnce::call_once") and len(args) == 2 and t.get("target") is not None and self.depth < 6:
+                    # a call of a local closure (`let is = |k: &str| name.eq_ignore_ascii_case(k); if is("a") ..`): its body is code of this function
+                    c0 = args[0]
+                    while c0[0] in ("ref", "deref"):
+                        c0 = c0[1]
+                    tup = args[1]
+                    if c0[0] == "closure" and c0[1] in self.facts.fns and tup[0] == "tuple":
+                        callee_ = self.facts.fns[c0[1]]
+                        if callee_.nargs == 1 + len(tup[1]):
+                            ty1 = callee_.locals[1]["ty"] if callee_.nargs >= 1 else {}
+                            self_arg = ("ref", c0, bool(ty1.get("mut"))) if ty1.get("k") == "ref" else c0
+                            LOWERED.add(c0[1])
+                            self._inline(c0[1], tuple([self_arg] + list(tup[1])), t, dict(env), conds, trace, events + [("lowered", ebb, None, path, ct, t)], onpath, ebb, use_ops=False)
+                            return
                 if t.get("target") is not None and path in self.facts.fns and ((self.inline_new and self.depth < 3 and path not in known_fns()) or (self.inline_also is not None and self.depth < 6 and self.inline_also(path, args))):
+                    if callee_path(t) in ("std::ops::Fn::call", "std::ops::FnMut::call_mut", "std::ops::FnOnce::call_once") and len(args) == 2 and args[1][0] == "tuple" and self.facts.fns[path].nargs == 1 + len(args[1][1]):
+                        # a call of a local closure resolved to its body: the arguments travel as one tuple, the body takes them spread
+                        self._inline(path, (args[0],) + tuple(args[1][1]), t, env, conds, trace, events, onpath, ebb, use_ops=False)
+                        return
                     self._inline(path, args, t, env, conds, trace, events, onpath, ebb)
                     return
                 if self.inline_new and path in self.facts.fns and path not in known_fns() and t.get("target") is not None:
@@ -482,6 +500,13 @@ class PathEnum:
                 # a callee that receives &mut to a tracked place may change it
                 for a in t["args"]:
                     self._havoc_mut(env, a, path)
+                if path in ("std::option::Option::<T>::insert", "std::option::Option::<T>::replace") and len(args) == 2 and t["args"][0]["k"] in ("copy", "move"):
+                    # `slot.insert(v)` / `slot.replace(v)` through a tracked `&mut slot`: the slot holds Some(v) afterwards
+                    key_ = env.get("@ref:" + pp.place_s(t["args"][0]["place"]))
+                    if key_ and not key_.startswith("@"):
+                        for k_ in [k_ for k_ in env if k_.startswith(key_ + ".") or k_.startswith(key_ + "[")]:
+                            del env[k_]
+                        env[key_] = ("agg", "std::option::Option", "Some", (args[1],))
                 self._assign(env, t["dest"], ct)
                 # a `&mut` result of a callee that was handed `&mut local` aliases that local
                 dk = "@ref:" + pp.place_s(t["dest"])
